@@ -17,13 +17,13 @@ CLAIMED = {
     "C08": ("has(e): true when e evaluates, false exactly for unbound-variable / absent-field failures, every other failure propagated unchanged; coalesce(e1..en), n <= 5: first result that is neither null nor absent, arguments evaluated left to right on the caller's interpreter and none after the chosen one, other failures propagated, null otherwise - for every combination of argument outcomes. Which failures the VM classifies as unbound/absent is covered for identifiers and map fields by the VM targets (C12/C06).", "3/C08", "mirsym"),
     "C10": ("The VM's jump check accepts exactly the targets inside the block or at its end, for all (pc, dist, len) (Kani); Jmp/JmpCond in the real VM loop land on the checked target or fail, for all distances (mirsym). Well-formedness of compiler output is outside.", "3/C10", "both"),
     "C12": ("JSON scalars convert to the same CelValue as direct binding (Kani). VM side (mirsym): an identifier operand resolves to a type name, then a bound variable, then a stored program run on the same interpreter, else an unbound-name failure; in call position a bound function wins over a macro over a type constructor, arguments keep source order, bytecode arguments are evaluated for functions and passed unevaluated to macros; a map field wins over a method; the call-depth counter is incremented on entry, bounds the depth (must run at depth <= 16, must fail beyond 128) and is restored on every exit path. Re-binding, re-adding programs and depth through macro bodies are outside.", "3/C12", "both"),
-    "C14": ("Scalar conversions through construct_type for all payloads: int/uint/double/bool/dyn/type, range errors instead of wrapped values, truncation toward zero with saturation, type(T(x)) == T, bytes<->string on <= 2 bytes (Kani); FmtString(n) concatenates its n string segments in source order and fails on a non-string segment (mirsym). String<->number round trips and the f-string lowering in the compiler are outside.", "3/C14", "both"),
+    "C14": ("Scalar conversions through construct_type for all payloads: int/uint/double/bool/dyn/type, range errors instead of wrapped values, truncation toward zero with saturation, type(T(x)) == T, bytes<->string on <= 2 bytes (Kani); FmtString(n) concatenates its n string segments in source order and fails on a non-string segment; the ten type constructors accept exactly the argument shapes of their overloads and answer everything else with an error (mirsym). String<->number round trips and the f-string lowering in the compiler are outside.", "3/C14", "both"),
     "C13": ("The tokenizer on literals that make up the whole input: decimal and hexadecimal integers with and without u (1..=4 characters of any printable ASCII after a leading digit, 0x + up to 3 more, the 10000 literals around u64::MAX) carry exactly the value their digits spell or are rejected when it does not fit 64 bits; doubles are parsed from exactly their own text; quoted strings of up to 3 arbitrary characters, \\xHH, \\uHHHH, \\UHHHHHHHH, three-digit octal and the single-character escapes yield exactly the characters they spell, malformed digits and invalid code points are rejected. The int64 narrowing in the parser, raw/bytes/f-strings, longer texts and the correct rounding of doubles (std) are outside.", "3/C13", "mirsym"),
     "C17": ("Last sentence only: filtering the reported names against a binding set removes exactly the names that set binds as variables, functions or macros (IdentFilterIter::next and BindContext::is_bound, for every sequence of up to 3 names and every binding set). That the compiler reports every identifier a program can read - the body of the property - is outside.", "3/C17", "mirsym"),
     "C18": ("Token spans only: for every literal the tokenizer targets of C13 explore, the token's span starts at (0,0) and ends at the (line, column) reached by counting characters and restarting the column after each newline. Syntax-tree spans, nesting, sibling disjointness and error locations are produced by the parser and are outside.", "3/C18", "mirsym"),
     "C19": ("Variant tags of the serde derives: for CelValue, CelError, ByteCode and JmpWhen every variant that Serialize writes - with its index tag (bincode) and its name tag (JSON) - is selected again by Deserialize's visit_u64 / visit_str, for all variants, all u64 tags and all strings; only variants no compiled program can contain may be refused. Payload encodings (millisecond timestamps/durations, nested containers), Program/ProgramDetails structs and the bindings' entry points are outside.", "3/C19", "mirsym"),
-    "C15": ("Math family through the dispatch entry points for all payloads: abs, sqrt, ceil/floor/round, lg/log (error instead of panic outside the domain), pow exponent validity (all values) and exact value on bounded bases/exponents. String/regex family is outside.", "3/C15", "kani"),
-    "C16": ("Timestamp/duration arithmetic: exact result or error outside the representable range (never a panic) on windows of instants with all durations; duration algebra d1+d2-d2==d1; duration accessors; chronological order; UTC calendar accessors against an independent civil-from-days computation. Zones and uomConvert are outside.", "3/C16", "kani"),
+    "C15": ("Math family through the dispatch entry points for all payloads: abs, sqrt, ceil/floor/round, lg/log (error instead of panic outside the domain), pow exponent validity (all values) and exact value on bounded bases/exponents (Kani). Shapes (mirsym): for each of the 31 built-ins generated by #[dispatch] (math, string, regex, size, sort, uom) a call runs exactly the overload whose receiver/parameter kinds it matches, with the payloads in order, and every other arity or kind - also too many arguments - is an error, for every combination of 11 kinds. What the string/regex overloads compute is outside.", "3/C15", "both"),
+    "C16": ("Timestamp/duration arithmetic: exact result or error outside the representable range (never a panic) on windows of instants with all durations; duration algebra d1+d2-d2==d1; duration accessors; chronological order; UTC calendar accessors against an independent civil-from-days computation. Overload resolution of the ten accessors (receiver timestamp or duration, optional zone string) for every combination of kinds (mirsym). What the zone forms compute and uomConvert are outside.", "3/C16", "both"),
 }
 
 NA = {
